@@ -26,6 +26,7 @@ SNIPPETS = {
     "ieval_loop": "(1,eval)('var g = %d; while (true) {}')",
     "newfn": "new Function('return g')()",
     "read": "g",
+    "reenter": "__re(%d); __ptr()",
 }
 
 # the probe is installed once per context (rendering it for every step costs 1.4 ms of parsing)
@@ -58,7 +59,7 @@ def cls(v):
     return -1
 
 
-def probe(api, ctx, baseline):
+def probe(api, ctx, baseline, ptr):
     gg = cls(ctx.get("g"))
     fg = cls(ctx.get("f"))
     out = api.run(lambda: ctx.eval("__p()"), tick=TICK, cap=20000, wall=60.0)
@@ -66,7 +67,6 @@ def probe(api, ctx, baseline):
         p = [cls(x) for x in out["pv"]]
     else:
         p = [-1] * NPROBE       # the context is not usable: a mismatch, judged by the specification
-    ptr = 1 if ctx._current_vm is None else 0
     extra = len([n for n in ctx._globals if n not in baseline and n not in ("g", "f")])
     return [gg, p[0], p[1], fg, p[2], p[3]] + p[4:] + [ptr, extra]
 
@@ -89,6 +89,9 @@ def new_ctx(api, lim):
             raise RuntimeError("probe function does not work when shared between contexts: %r" % (got,))
         _PROBE_FN.append(fn)
     ctx.set("__p", _PROBE_FN[0])
+    # exposed callables for the re-entrant snippet: evaluate on the same context / report the current-VM pointer
+    ctx.set("__re", lambda n: (ctx.eval("var g = %d" % int(n)), None)[1])
+    ctx.set("__ptr", lambda: 0 if ctx._current_vm is None else 1)
     return ctx, frozenset(ctx._globals)
 
 
@@ -109,6 +112,8 @@ def replay(case, api):
             src = t % n if "%d" in t else t
             out = api.run(lambda: ctx.eval(src), tick=TICK, cap=50000, wall=60.0)
         r = cls(out.get("pv")) if out["o"] == "value" else -1
+        # the pointer of every context is read first: the probe itself evaluates, which would clear a stale pointer
+        ptrs = [1 if cx._current_vm is None else 0 for cx, _ in ctxs]
         evs.append({"c": c, "k": k, "x": n, "o": out["o"], "r": r,
-                    "pr": [probe(api, cx, base) for cx, base in ctxs]})
+                    "pr": [probe(api, cx, base, p) for (cx, base), p in zip(ctxs, ptrs)]})
     return {"id": case["id"], "tid": case["id"], "nc": nc, "ev": evs}
